@@ -1,5 +1,6 @@
 import FxpVerif.Model.Chk
 import FxpVerif.Model.Arith
+import FxpVerif.Model.Convert
 /-! Line-protocol helpers for the correspondence driver (core Lean only). -/
 namespace Fxp.Proto
 
